@@ -5,8 +5,6 @@ type nat =
 | O
 | S of nat
 
-val option_map : ('a1 -> 'a2) -> 'a1 option -> 'a2 option
-
 val fst : ('a1 * 'a2) -> 'a1
 
 val snd : ('a1 * 'a2) -> 'a2
@@ -19,8 +17,6 @@ type comparison =
 | Eq
 | Lt
 | Gt
-
-val compOpp : comparison -> comparison
 
 val add : nat -> nat -> nat
 
@@ -46,8 +42,6 @@ module Nat :
   val leb : nat -> nat -> bool
 
   val ltb : nat -> nat -> bool
-
-  val compare : nat -> nat -> comparison
 
   val min : nat -> nat -> nat
 
@@ -124,8 +118,6 @@ module Coq_Pos :
   val to_nat : positive -> nat
 
   val of_succ_nat : nat -> positive
-
-  val eq_dec : positive -> positive -> bool
  end
 
 module N :
@@ -149,8 +141,6 @@ module N :
   val leb : n -> n -> bool
 
   val ltb : n -> n -> bool
-
-  val min : n -> n -> n
 
   val div2 : n -> n
 
@@ -180,8 +170,6 @@ module N :
 
   val of_nat : nat -> n
 
-  val eq_dec : n -> n -> bool
-
   val b2n : bool -> n
 
   val ones : n -> n
@@ -195,8 +183,6 @@ val removelast : 'a1 list -> 'a1 list
 
 val rev : 'a1 list -> 'a1 list
 
-val list_eq_dec : ('a1 -> 'a1 -> bool) -> 'a1 list -> 'a1 list -> bool
-
 val map : ('a1 -> 'a2) -> 'a1 list -> 'a2 list
 
 val fold_left : ('a1 -> 'a2 -> 'a1) -> 'a2 list -> 'a1 -> 'a1
@@ -204,10 +190,6 @@ val fold_left : ('a1 -> 'a2 -> 'a1) -> 'a2 list -> 'a1 -> 'a1
 val fold_right : ('a2 -> 'a1 -> 'a1) -> 'a1 -> 'a2 list -> 'a1
 
 val existsb : ('a1 -> bool) -> 'a1 list -> bool
-
-val forallb : ('a1 -> bool) -> 'a1 list -> bool
-
-val combine : 'a1 list -> 'a2 list -> ('a1 * 'a2) list
 
 val firstn : nat -> 'a1 list -> 'a1 list
 
@@ -500,108 +482,6 @@ val insert_by : ('a1 -> 'a1 -> bool) -> 'a1 -> 'a1 list -> 'a1 list
 val sort_by : ('a1 -> 'a1 -> bool) -> 'a1 list -> 'a1 list
 
 val dedup_by : ('a1 -> 'a1 -> bool) -> 'a1 list -> 'a1 list
-
-type sivl = { s_min : dna; s_mpos : nat; s_start : nat; s_len : nat }
-
-val flank_exts : dna -> nat -> nat -> n
-
-type minpos = { mval : n; mpos : nat; mkmer : dna }
-
-val mp_cmp : minpos -> minpos -> comparison
-
-val mp_min : minpos -> minpos -> minpos
-
-type interval = { iv_minimizer : dna; iv_mpos : n; iv_start : n; iv_len : n }
-
-val cast : n -> nat -> n
-
-val cast_iv : n -> sivl -> interval
-
-val mp : (dna -> n) -> dna -> nat -> nat -> minpos
-
-val incr : (dna -> n) -> dna -> nat -> minpos -> minpos
-
-val find_min_loop :
-  (dna -> n) -> dna -> nat -> nat -> minpos -> minpos -> minpos
-
-val find_min : (dna -> n) -> dna -> nat -> nat -> nat -> minpos
-
-type scan_state = (minpos * minpos) * (nat * minpos) list
-
-val scan_step :
-  (dna -> n) -> dna -> nat -> nat -> scan_state -> nat -> scan_state
-
-val scan_init : (dna -> n) -> dna -> nat -> nat -> scan_state
-
-val min_positions : (dna -> n) -> dna -> nat -> nat -> (nat * minpos) list
-
-val synth : dna -> nat -> (nat * minpos) list -> sivl list
-
-val scan_raw : (dna -> n) -> dna -> nat -> nat -> sivl list
-
-val scan_guard : dna -> nat -> nat -> bool
-
-val scan_w : (dna -> n) -> dna -> nat -> nat -> n -> interval list option
-
-val scan : (dna -> n) -> dna -> nat -> nat -> interval list option
-
-val bucket_of : dna -> n
-
-val perm_score : n list -> bool -> dna -> n
-
-val simple_scan :
-  dna -> nat -> nat -> n list -> bool -> ((n * n) * n) list option
-
-val from_slice_bounds : dna -> nat -> nat -> n
-
-val msp_score : nat -> n list option -> bool -> dna -> n
-
-val msp_piece : dna -> interval -> (n * n) * dna
-
-val msp_sequence :
-  n -> dna -> nat -> nat -> n list option -> bool -> ((n * n) * dna) list
-  option
-
-val dna_eq : dna -> dna -> bool
-
-val check_iv : dna -> nat -> nat -> n list -> sivl -> bool
-
-val check_end : dna -> nat -> nat -> n list -> sivl -> bool
-
-val check_chain : dna -> nat -> nat -> n list -> sivl list -> bool
-
-val check_scan : dna -> nat -> nat -> n list -> sivl list -> bool
-
-val check_pieces :
-  nat -> bool -> dna -> nat -> ((n * n) * dna) list -> (dna * n) list option
-
-val check_read :
-  nat -> bool -> (dna * ((n * n) * dna) list) -> (dna * n) list option
-
-val all_obs :
-  nat -> bool -> (dna * ((n * n) * dna) list) list -> (dna * n) list option
-
-val functional : (dna * n) list -> bool
-
-val check_msp : nat -> bool -> (dna * ((n * n) * dna) list) list -> bool
-
-val assoc_score : (n * n) list -> n -> n
-
-val score_table : dna -> nat -> n list -> (n * n) list
-
-val of_interval : interval -> val0
-
-val v_sivl : val0 -> sivl option
-
-val v_piece : val0 -> ((n * n) * dna) option
-
-val v_read_out : val0 -> (dna * ((n * n) * dna) list) option
-
-val of_piece : ((n * n) * dna) -> val0
-
-val d_scan : string -> val0 -> val0 option
-
-val is_scan_op : string -> bool
 
 val cfg_of : n -> n -> kcfg
 
